@@ -806,6 +806,21 @@ var cmdTable = []cmdCall{
 
 // splitText draws a text biased towards the split rules.
 func splitText(g G, L int, allowNL bool) string {
+	t := splitTextCore(g, L, allowNL)
+	// a text the caller has framed itself as a CTCP (both delimiters, or one):
+	// text like any other as far as splitting goes
+	switch g.Intn(12) {
+	case 0:
+		return "\x01" + t + "\x01"
+	case 1:
+		return "\x01ACTION " + t + "\x01"
+	case 2:
+		return "\x01" + t
+	}
+	return t
+}
+
+func splitTextCore(g G, L int, allowNL bool) string {
 	kind := g.Intn(11)
 	n := 0
 	switch g.Intn(6) {
@@ -1010,10 +1025,21 @@ func sendCommands(e *Env) {
 	if floodProtection {
 		e.S.Count("probe.commands-under-flood-protection")
 	}
-	s := startSession(e, ClientOpts{Nick: "me", Flood: !floodProtection}, func(l *simnet.Link) {
+	s := startSession(e, g.Knobs(ClientOpts{Nick: "me", Flood: !floodProtection}), func(l *simnet.Link) {
 		l.ChunkMode = g.Intn(4)
-		l.Window = []int{0, 0, 100, 1000}[g.Intn(4)]
+		l.Window = []int{0, 0, 16, 100, 1000}[g.Intn(5)]
 	})
+	if !c11 && g.Pct(30) {
+		// a server that now and then stops reading for a while, in the middle of
+		// whatever line is on its way (longer than a short Config.Timeout): slow
+		// is all it is, every line still arrives whole
+		e.S.Count("fault.server-stalls-mid-line")
+		s.pause = func() {
+			if e.S.Choose(6) == 0 {
+				simrt.Sleep(time.Duration(1+e.S.Choose(4)) * 700 * time.Millisecond)
+			}
+		}
+	}
 	// an application that starts talking before it has connected for the first
 	// time: whatever becomes of those calls (the library lets them wait for
 	// ever), nothing but whole single commands of their own verb may come of them
@@ -1269,9 +1295,10 @@ func sendCommands(e *Env) {
 			}
 		}
 	}
-	if floodProtection && !c11 {
-		// held-back lines take their time: wait for the concurrent callers' lines
-		// (2 s and more each) before the stream is judged
+	if !c11 {
+		// held-back lines take their time, and so do lines on their way to a
+		// server that stalls: wait for the concurrent callers' lines (2 s and more
+		// each under flood protection) before the stream is judged
 		want := 0
 		for _, k := range noiseSent {
 			want += k
@@ -1288,6 +1315,21 @@ func sendCommands(e *Env) {
 		simrt.Settle(5 * time.Second)
 	}
 	if !c11 && !e.S.Failed() {
+		// the stream is judged up to a last marker: the queue is FIFO, so all that
+		// was handed over before it has been written when it arrives (what the
+		// client still has to say after it - a late PONG - may be on its way)
+		s.c.Raw("MARK final")
+		if !simrt.BlockFor("send", "the final marker", 6*time.Hour, func() bool {
+			for i := len(s.lines) - 1; i >= 0 && i >= len(s.lines)-400; i-- {
+				if s.lines[i] == "MARK final" {
+					return true
+				}
+			}
+			return false
+		}) {
+			e.Violation("stuck", "the last line handed over did not reach the server although it keeps reading\n%s", e.S.TaskDump())
+			return
+		}
 		checkStream(e, s, noiseSent)
 	}
 	if other != nil && !e.S.Failed() && !other.verify("foreign-line") {
@@ -1312,6 +1354,9 @@ func clipq(a []string) string {
 // inside, and the noise lines arrived whole, once each, in order.
 func checkStream(e *Env, s *session, noiseSent []int) {
 	all := string(s.l.AllC2S)
+	if i := strings.LastIndex(all, "MARK final\r\n"); i >= 0 {
+		all = all[:i+len("MARK final\r\n")]
+	}
 	e.Check()
 	if all != "" && !strings.HasSuffix(all, "\r\n") {
 		e.Violation("framing", "the byte stream does not end in CRLF: ...%q", tailStr(all, 40))
